@@ -10,8 +10,8 @@ def plan(tier, seed, scale):
     return {"n_cases": sizes(tier, scale, 2400, 60000), "variants": 4,
             "profiles": ["events", "core", "events_flat", "chain", "deep", "par", "big", "flat"],
             "remote_cases": int((32 if tier == "quick" else 1600) * scale),
-            "dfs_cases": int((96 if tier == "quick" else 4000) * scale), "dfs_cap": 300 if tier == "quick" else 20000,
-            "dfs_budget_s": 1.5 if tier == "quick" else 60.0,
+            "dfs_cases": int((96 if tier == "quick" else 1600) * scale), "dfs_cap": 300 if tier == "quick" else 20000,
+            "dfs_budget_s": 1.5 if tier == "quick" else 20.0,
             "timeout_s": 600 if tier == "quick" else 7200}
 
 
